@@ -461,6 +461,21 @@ def check_function(repo, fn: FuncInfo, descriptor_attrs: Optional[Dict[str, Set[
                         else:
                             roots = dep_roots(fn, val, {id(x)})
                         classify_roots(roots, kroots, "slot", desc, x, short(x), slot=slot)
+        # guard-return form:  if self._s is not None: return self._s  ...  self._s = V   (V returned afterwards)
+        for n in walk_local(fn.node):
+            if not (isinstance(n, ast.If) and not n.orelse and n.body and isinstance(n.body[-1], ast.Return)):
+                continue
+            t = n.test
+            if not (isinstance(t, ast.Compare) and len(t.ops) == 1 and isinstance(t.ops[0], ast.IsNot) and is_attr_of(t.left, selfname) and isinstance(t.comparators[0], ast.Constant) and t.comparators[0].value is None):
+                continue
+            slot = t.left.attr
+            if not (n.body[-1].value is not None and is_attr_of(n.body[-1].value, selfname, slot)):
+                continue
+            for x in walk_local(fn.node):
+                if isinstance(x, ast.Assign) and any(is_attr_of(tt, selfname, slot) for tt in x.targets) and x.lineno > n.lineno and not (isinstance(x.value, ast.Constant) and x.value.value is None):
+                    desc = f"lazy slot self.{slot} in {fn.qualname}"
+                    sites.append(Site(fn, "slot", desc, x))
+                    classify_roots(dep_roots(fn, x.value, {id(x)}), set(), "slot", desc, x, short(x), slot=slot)
     return sites, problems
 
 
